@@ -88,3 +88,45 @@ func VfC13_ModuleString() {
 	vfKnown("C13.block-print-before-numbering", vfAnd(which == 2, vfNot(printed)))
 	vfAssert("C13.race-free", vfNoRace())
 }
+
+// VfC13_Interleaved: the same pairs of printers as two suspendable threads of
+// the executor (vfPar): which printer starts and at which scheduling points
+// (before a Lock, after an Unlock) the running one is preempted are forked
+// choices, at most 1 (thorough: 2) preemptions per execution; a printer
+// blocked on a held mutex yields.  Every executed interleaving is checked for
+// data races by happens-before over the mutex operations, and both texts must
+// equal the text of an identically built module printed by one goroutine.
+//
+//vf:unwind 300
+//vf:steps 90000000
+func VfC13_Interleaved() {
+	m, f := hC13Module()
+	twin, _ := hC13Module()
+	printed := vfChoice("printed-before", 2) == 1
+	if printed {
+		_ = m.String()
+	}
+	budget := 1
+	if vfTier() > 0 {
+		budget = 2
+	}
+	which := vfChoice("pair", 3)
+	var s1, s2 string
+	switch which {
+	case 0:
+		vfPar(func() { s1 = m.String() }, func() { s2 = m.String() }, budget)
+		want := twin.String()
+		vfAssert("C13.interleaved.text.module", vfAnd(s1 == want, s2 == want))
+		vfAssert("C13.interleaved.text.later-print", m.String() == want)
+	case 1:
+		vfPar(func() { s1 = f.LLString() }, func() { s2 = m.String() }, budget)
+		want := twin.String()
+		vfAssert("C13.interleaved.text.func-in-module", vfAnd(s2 == want, m.String() == want))
+	default:
+		vfPar(func() { s1 = f.Blocks[0].LLString() + f.Ident() + f.Type().String() }, func() { s2 = f.LLString() }, budget)
+		vfAssert("C13.interleaved.text.block-and-func", m.String() == twin.String())
+	}
+	vfReach("C13.interleaved")
+	vfKnown("C13.block-print-before-numbering", vfAnd(which == 2, vfNot(printed)))
+	vfAssert("C13.race-free", vfNoRace())
+}
